@@ -996,6 +996,7 @@ pub struct CycleMonitor {
     pub n_two_events: u64,
     pub n_gc: u64,
     pub n_gc_mid_cycle: u64,
+    pub n_add_mid_cycle: u64,
 }
 
 impl CycleMonitor {
@@ -1021,6 +1022,7 @@ impl CycleMonitor {
             n_two_events: 0,
             n_gc: 0,
             n_gc_mid_cycle: 0,
+            n_add_mid_cycle: 0,
         }
     }
 }
@@ -1266,6 +1268,13 @@ impl Monitor for CycleMonitor {
                 }
             }
         }
+        if let UserAct::AddPeripheral { app, .. } = act {
+            // the new peripheral takes the next slot (nothing is ever removed), i.e. one after
+            // every slot visited so far: the order and once-per-cycle rules hold unchanged
+            if *app == self.dp.app && !self.visited.is_empty() {
+                self.n_add_mid_cycle += 1;
+            }
+        }
     }
 
     fn observer(&self) -> bool {
@@ -1278,6 +1287,7 @@ impl Monitor for CycleMonitor {
         s.add("cycle.peripheral_events", self.n_events);
         s.add("cycle.global_control_telegrams", self.n_gc);
         s.add("probe.global_control_in_the_middle_of_a_cycle", self.n_gc_mid_cycle);
+        s.add("probe.dp_master_add_in_the_middle_of_a_cycle", self.n_add_mid_cycle);
     }
 }
 
